@@ -17,8 +17,7 @@ CONSTANTS Ops,          \* subset of operation names explored by this configurat
           ReadSizes,    \* n of read(s, n)
           Seeks,        \* off of seekg(off, cur)
           Cs,           \* c of setDefaultLogContainerSize(c)
-          Bufs,         \* b of setBufferSize(b)
-          Protocol      \* TRUE: write(container) only while no container is open at the put position
+          Bufs          \* b of setBufferSize(b)
 
 VARIABLES uf,
           lo,           \* reference model: bytes at positions below lo were dropped (their
@@ -49,7 +48,6 @@ WriteC == "writeC" \in Ops /\ \E m \in ContSizes :
             /\ uf.p + m <= MaxPos
             /\ Len(uf.data) < MaxCont
             /\ UFWriteCPred(uf)
-            /\ Protocol => Containing(uf.data, uf.p) = 0
             /\ uf' = UFWriteC(uf, m)
             /\ act' = [op |-> "writeC", arg |-> m]
             /\ ret' = <<>> /\ UNCHANGED lo
